@@ -451,6 +451,9 @@ impl<'tcx> Ex<'tcx> {
                         AssertKind::OverflowNeg(a) => ("OverflowNeg", vec![self.operand(body, did, a)]),
                         AssertKind::DivisionByZero(a) => ("DivisionByZero", vec![self.operand(body, did, a)]),
                         AssertKind::RemainderByZero(a) => ("RemainderByZero", vec![self.operand(body, did, a)]),
+                        AssertKind::MisalignedPointerDereference { .. } => ("MisalignedPointerDereference", vec![]),
+                        AssertKind::NullPointerDereference => ("NullPointerDereference", vec![]),
+                        AssertKind::InvalidEnumConstruction(_) => ("InvalidEnumConstruction", vec![]),
                         _ => ("Other", vec![]),
                     };
                     let op = match &**msg {
